@@ -11,33 +11,28 @@ Model: `SquidModel.Header.parseHeader` (= `HttpHeader::parse` with `Http::Conten
 `rawEntries cfg block` are the fields of the block as `HttpHeaderEntry::parse` produces them (C25 ties them to the
 text of the block); `clValues raw` are the values of its Content-Length fields in order.
 
-The full statement is FALSE of the real code in two regions (both only with relaxed_header_parser), see the
-`_counterexample` theorems; they are excluded by explicit hypotheses:
-  * `BlankOk v` fails: a comma list with a member that consists of VT/FF (and separators) only — `checkList` stops there and never
-    looks at the rest of the list (finding C26-list-truncated); the specification counts such a member as one without a value;
-  * `fieldValues v = []`: a comma list without any member — treated as if the field were absent (finding C26-empty-list).
+Two defects found while building this check were repaired in squid: 43aac5c (`strListGetItem` skips VT/FF between items like
+the other `isspace` bytes) and 95b4622 (`checkList`: a list without any member, or one that ends on a member that is empty after
+trimming, is bad framing). The model follows the repaired code, and the statements below hold at full strength. What the code
+did before is recorded in the `prefix_…` theorems at the end (about the pre-fix definitions in `Header/PostFix.lean`).
 All theorems are for every block and every configuration, without size bounds.
 -/
-import SquidModel.Header.ScanLemmas
+import SquidModel.Header.PostFix
 
 namespace SquidModel.C26
 open SquidModel SquidModel.Header
 
-/-- FULL STATEMENT (false, see `list_truncated_counterexample`): the same without the `BlankOk` hypothesis.
-
-Soundness. Whenever `parse` succeeds and the header then carries a Content-Length `n` (`getInt64(CONTENT_LENGTH)`), the message
+/-- **Soundness.** Whenever `parse` succeeds and the header then carries a Content-Length `n` (`getInt64(CONTENT_LENGTH)`), the message
 has no Transfer-Encoding field, Content-Length is not prohibited for it, it is not flagged `conflictingContentLength`,
-with the strict parser it has exactly one Content-Length field and that field is not a list, and — outside the VT/FF-element
-region — `n ≥ 0`, there is at least one Content-Length field and *every* value of *every* Content-Length field is a decimal
+with the strict parser it has exactly one Content-Length field and that field is not a list, `n ≥ 0`, there is at least one
+Content-Length field, every such field carries at least one value, and *every* value of *every* Content-Length field is a decimal
 that fits int64 and denotes `n`. -/
-theorem framing_length_sound_partial (cfg : Cfg) (block : Bytes) (r : HdrResult) (n : Int)
+theorem framing_length_sound (cfg : Cfg) (block : Bytes) (r : HdrResult) (n : Int)
     (h : parseHeader cfg block = .ok r) (hn : contentLength r.entries = some n) :
     ∃ raw, rawEntries cfg block = some raw ∧ cfg.prohibited = false ∧ hasTe raw = false ∧
       r.conflictingContentLength = false ∧
       (cfg.relaxed = false → ∃ v, clValues raw = [v] ∧ v.contains 44 = false) ∧
-      ((∀ v ∈ clValues raw, BlankOk v) →
-        0 ≤ n ∧ clValues raw ≠ [] ∧
-        ∀ v ∈ clValues raw, ∀ x ∈ fieldValues cfg.relaxed v, decimalValue x = some n.toNat) := by
+      0 ≤ n ∧ clValues raw ≠ [] ∧ AllDenote cfg.relaxed (clValues raw) n.toNat := by
   rw [parseHeader_eq] at h
   cases hraw : rawEntries cfg block with
   | none => simp [hraw] at h
@@ -88,26 +83,24 @@ theorem framing_length_sound_partial (cfg : Cfg) (block : Bytes) (r : HdrResult)
           have := hshape.2 hdec.1 (hstrict hr).2
           obtain ⟨v, hv, hc, _⟩ := this.2 hdec.2.1
           exact ⟨v, hv, hc⟩
-        · intro hb
+        · have hb : ∀ v ∈ clValues raw, BlankOk v := fun v _ => blankOk_all v
           have hg := (hgood hb hdec.1).1 hdec.2.1
           rw [hdec.2.2] at hg
+          have hvne := runFields_values_ne cfg.relaxed (clValues raw) {} rfl (by rw [← hrun]; exact hdec.1)
           refine ⟨hg.1, ?_, ?_⟩
           · intro hnil
             rw [hnil] at hrun
             simp only [runFields, List.foldl_nil] at hrun
             rw [hrun] at hdec; simp at hdec
-          · intro v hv x hx
-            exact hg.2 x (List.mem_flatMap.mpr ⟨v, hv, hx⟩)
+          · intro v hv
+            exact ⟨hvne v hv, fun x hx => hg.2 x (List.mem_flatMap.mpr ⟨v, hv, hx⟩)⟩
 
-/-- FULL STATEMENT (false, see the two counterexamples): the same without `hblank` and `hvalues`.
-
-"Otherwise the message is treated as having bad framing". For a syntactically acceptable block with at least one Content-Length
-field, no Transfer-Encoding and no prohibition: if it is NOT the case that all values of all Content-Length fields denote one
-number (and, strict parser, that there is exactly one such field), then `parse` fails (strict) or succeeds with
+/-- **"Otherwise the message is treated as having bad framing".** For a syntactically acceptable block with at least one Content-Length
+field, no Transfer-Encoding and no prohibition: if it is NOT the case that all Content-Length fields carry a value and all their
+values denote one number (and, strict parser, that there is exactly one such field), then `parse` fails (strict) or succeeds with
 `conflictingContentLength()` set and no Content-Length left in the header (relaxed). -/
-theorem otherwise_bad_partial (cfg : Cfg) (block : Bytes) (raw : List Entry)
+theorem otherwise_bad (cfg : Cfg) (block : Bytes) (raw : List Entry)
     (hraw : rawEntries cfg block = some raw) (hp : cfg.prohibited = false) (hte : hasTe raw = false)
-    (hblank : ∀ v ∈ clValues raw, BlankOk v) (hvalues : ∀ v ∈ clValues raw, fieldValues cfg.relaxed v ≠ [])
     (hne : clValues raw ≠ [])
     (hamb : ¬ ∃ n, AllDenote cfg.relaxed (clValues raw) n ∧ (cfg.relaxed = false → (clValues raw).length = 1)) :
     parseHeader cfg block = .reject ∨
@@ -136,6 +129,8 @@ theorem otherwise_bad_partial (cfg : Cfg) (block : Bytes) (raw : List Entry)
         simp [clDecision, hbad] at hk
     · exfalso
       have hbad' : cl.sawBad = false := by simpa using hbad
+      have hblank : ∀ v ∈ clValues raw, BlankOk v := fun v _ => blankOk_all v
+      have hvalues := runFields_values_ne cfg.relaxed (clValues raw) {} rfl (by rw [← hrun]; exact hbad')
       have hg := hgood hblank hbad'
       apply hamb
       by_cases hsg : cl.sawGood = true
@@ -253,33 +248,48 @@ theorem unambiguous_accepted (cfg : Cfg) (block : Bytes) (raw : List Entry) (n :
   · rw [parseHeader_eq]; simp only [hraw, hfold]; exact hr
   · rw [hclr]; simp [clDecision, hbad, hg, hval hg]
 
-/-! ### the two regions where the real code violates the property (relaxed parser only) -/
+/-- the values of a list field are its non-blank members, trimmed (a reading of `elements` that does not mention the code's
+separator set `isListLead`) -/
+theorem list_values_are_nonblank_members (v : Bytes) :
+    elements v = ((splitComma v).map strip).filter (fun x => !x.isEmpty) := elements_spec v
 
-/-- `Content-Length: 5,<VT>,7` : the framing length 5 is taken although the field also carries a member without a value and the value 7. -/
-theorem list_truncated_counterexample :
+/-! ### the former findings, as regression cases of the repaired code -/
+
+/-- `Content-Length: 5,<VT>,7`: the VT-only member is skipped like other whitespace, 5 and 7 conflict: bad framing -/
+theorem list_with_vt_member_conflict :
     parseHeader ⟨true, .request, false⟩
-      [67,111,110,116,101,110,116,45,76,101,110,103,116,104,58,32, 53,44,11,44,55, 13,10]
-      = .ok ⟨[⟨idContentLength, nameOf idContentLength, [53]⟩], false, false⟩ ∧
-    fieldValues true [53,44,11,44,55] = [[53], [], [55]] ∧ ¬ BlankOk [53,44,11,44,55] := by
-  refine ⟨by decide +kernel, by decide +kernel, by decide +kernel⟩
-
-/-- `Content-Length: ,` : no value at all, yet neither rejected nor flagged — the message is handled as if it had no Content-Length. -/
-theorem empty_list_counterexample :
-    parseHeader ⟨true, .request, false⟩ [67,111,110,116,101,110,116,45,76,101,110,103,116,104,58,32, 44, 13,10]
-      = .ok ⟨[], false, false⟩ ∧
-    fieldValues true [44] = [] := by
+      [67,111,110,116,101,110,116,45,76,101,110,103,116,104,58,32, 53,44,11,44,55, 13,10] = .ok ⟨[], true, false⟩ ∧
+    fieldValues true [53,44,11,44,55] = [[53], [55]] := by
   refine ⟨by decide +kernel, by decide +kernel⟩
 
-/-- `Content-Length: ,<VT>,7`: an invalid member and the value 7, yet neither rejected nor flagged: the field is dropped as if absent -/
-theorem list_truncated_counterexample_absent :
+/-- `Content-Length: ,<VT>,7`: one value, 7 -/
+theorem list_with_leading_vt_member :
     parseHeader ⟨true, .request, false⟩
-      [67,111,110,116,101,110,116,45,76,101,110,103,116,104,58,32, 44,11,44,55, 13,10] = .ok ⟨[], false, false⟩ ∧
-    fieldValues true [44,11,44,55] = [[], [55]] := by
+      [67,111,110,116,101,110,116,45,76,101,110,103,116,104,58,32, 44,11,44,55, 13,10]
+      = .ok ⟨[⟨idContentLength, nameOf idContentLength, [55]⟩], false, false⟩ := by decide +kernel
+
+/-- `Content-Length: ,`: a list without any member is bad framing -/
+theorem empty_list_is_bad :
+    parseHeader ⟨true, .request, false⟩ [67,111,110,116,101,110,116,45,76,101,110,103,116,104,58,32, 44, 13,10]
+      = .ok ⟨[], true, false⟩ ∧ fieldValues true [44] = [] := by
+  refine ⟨by decide +kernel, by decide +kernel⟩
+
+/-! ### what the code did before 43aac5c / 95b4622 (pre-fix definitions; for the record) -/
+
+/-- PRE-FIX: `5,<VT>,7` — the scan stopped at the VT-only member: value 5, no conflict seen, `sawBad` clear -/
+theorem prefix_list_truncated_counterexample :
+    (checkListPreFix {} [53,44,11,44,55]).sawBad = false ∧ (checkListPreFix {} [53,44,11,44,55]).sawGood = true ∧
+    (checkListPreFix {} [53,44,11,44,55]).value = 5 := by
+  refine ⟨by decide +kernel, by decide +kernel, by decide +kernel⟩
+
+/-- PRE-FIX: `,` — no member at all, yet neither bad nor good: the field was sanitised away as if absent -/
+theorem prefix_empty_list_counterexample :
+    (checkListPreFix {} [44]).sawBad = false ∧ (checkListPreFix {} [44]).sawGood = false := by
   refine ⟨by decide +kernel, by decide +kernel⟩
 
 /-! ### non-vacuity -/
 
-/-- the hypotheses of `otherwise_bad_partial` are satisfiable and its conclusion is the relaxed branch: `Content-Length: 5, 7` -/
+/-- the hypotheses of `otherwise_bad` are satisfiable and its conclusion is the relaxed branch: `Content-Length: 5, 7` -/
 example : parseHeader ⟨true, .request, false⟩ [67,111,110,116,101,110,116,45,76,101,110,103,116,104,58,32, 53,44,32,55, 13,10]
     = .ok ⟨[], true, false⟩ := by decide +kernel
 /-- … and the strict branch: the same block is rejected -/
@@ -289,7 +299,6 @@ example : parseHeader ⟨false, .request, false⟩ [67,111,110,116,101,110,116,4
 example : parseHeader ⟨true, .reply, false⟩
     [67,111,110,116,101,110,116,45,76,101,110,103,116,104,58,32, 48,53,44,32,53, 13,10]
     = .ok ⟨[⟨idContentLength, nameOf idContentLength, [53]⟩], false, false⟩ := by decide +kernel
-example : BlankOk [48,53,44,32,53] := by decide +kernel
 example : fieldValues true [48,53,44,32,53] = [[48,53],[53]] := by decide +kernel
 example : decimalValue [48,53] = some 5 := by decide +kernel
 /-- the specification rejects what it should -/
